@@ -59,6 +59,17 @@ What is transliterated, and from where
 ## `NullOut` — null-out (`src/targets/null.rs:48-58`)
 * `reload srcs`: `self.sources = new_sources` (then `suspend`, a no-op on links that were never connected);
   `report` = `TargetCommand::ReportLinks`: `report.set_sources(&self.sources)` (nothing for an empty list).
+## `Mrt` — mrt-file-in (`src/units/mrt_file_in/{unit,api}.rs`)
+* `init c`: `MrtFileIn::run` queues every path of `filename` (`unit.rs:119-121`) and builds the queue endpoint
+  `/mrt/<name>/queue` with `update_path` **copied into the `api::Processor`** (`unit.rs:123-130`); the queue
+  consumer processes one file after the other (`unit.rs:473-512`): `processed` = the files read, in order, each
+  as (directory it was read from, name) — static files of `filename` have directory `none`.
+* `api n` = `GET …/queue?file=<n>`: no `update_path` ⇒ 400; else the file `<update_path>/<n>` is queued and
+  processed (`api.rs:62-135`). `St.apidir` = the directory the endpoint resolves names in.
+* `reload c` = `GateStatus::Reconfiguring { new_config: Unit::MrtFileIn(..) }` (`unit.rs:574-598`): the arm's
+  body is commented out — the new `filename` is not queued, `update_path` stays what the endpoint was built
+  with. Site `mrt` (repaired: files newly listed in `filename` are queued, the endpoint resolves names in the
+  new `update_path`; files already listed are not read again).
 Theorems: `Props/ReconfUnits.lean`. Import-free so that the driver links.
 -/
 namespace Rotonda.ReconfUnits
@@ -72,10 +83,11 @@ structure Variant where
   bgpmatch : Site := .asWritten
   bgplisten : Site := .asWritten
   fileout : Site := .asWritten
+  mrt : Site := .asWritten
   deriving DecidableEq, Repr
 
 def asWritten : Variant := {}
-def repaired : Variant := ⟨.repaired, .repaired, .repaired, .repaired⟩
+def repaired : Variant := ⟨.repaired, .repaired, .repaired, .repaired, .repaired⟩
 
 /-! ## bgp-tcp-in -/
 namespace Bgp
@@ -433,5 +445,65 @@ def loads : List Ev → Nat
   | .report :: es => loads es
 
 end NullOut
+
+/-! ## mrt-file-in -/
+namespace Mrt
+
+structure Cfg where
+  files : List Nat          -- `filename` (one or many), as ids of static files
+  updir : Option Nat        -- `update_path`
+  deriving DecidableEq, Repr
+
+structure St where
+  cfg : Cfg                             -- `MrtInRunner.config`
+  apidir : Option Nat                   -- `api::Processor.update_path`
+  processed : List (Option Nat × Nat) := []
+  deriving DecidableEq, Repr
+
+def init (c : Cfg) : St := { cfg := c, apidir := c.updir, processed := c.files.map (none, ·) }
+
+inductive Ev where
+  | api (name : Nat)
+  | reload (c : Cfg)
+  deriving DecidableEq, Repr
+
+inductive Out where
+  | ok (dir name : Nat)     -- 200, that file was read
+  | refused                 -- 400: no update_path configured
+  | reloaded (newly : List Nat)
+  deriving DecidableEq, Repr
+
+def step (v : Variant) (s : St) : Ev → St × Out
+  | .api n =>
+    match s.apidir with
+    | none => (s, .refused)
+    | some d => ({ s with processed := s.processed ++ [(some d, n)] }, .ok d n)
+  | .reload c =>
+    match v.mrt with
+    | .asWritten => (s, .reloaded [])
+    | .repaired =>
+      let newly := c.files.filter (fun f => !s.cfg.files.contains f)
+      ({ cfg := c, apidir := c.updir, processed := s.processed ++ newly.map (none, ·) }, .reloaded newly)
+
+def run (v : Variant) (s : St) : List Ev → St
+  | [] => s
+  | e :: es => run v (step v s e).1 es
+
+def outs (v : Variant) (s : St) : List Ev → List Out
+  | [] => []
+  | e :: es => (step v s e).2 :: outs v (step v s e).1 es
+
+/-- Reference semantics: a queue request is resolved in the `update_path` in force; a file newly listed in
+    `filename` is read once when it appears. -/
+def spec (c : Cfg) : List Ev → List (Option Nat × Nat)
+  | [] => []
+  | .api n :: es => (match c.updir with | none => [] | some d => [(some d, n)]) ++ spec c es
+  | .reload c' :: es => (c'.files.filter (fun f => !c.files.contains f)).map (none, ·) ++ spec c' es
+
+def isReload : Ev → Bool
+  | .reload _ => true
+  | _ => false
+
+end Mrt
 
 end Rotonda.ReconfUnits
